@@ -257,6 +257,20 @@ def sites(tree):
                                             value=ast.BinOp(left=ast.Name(id=st.target.id, ctx=ast.Load()), op=st.op, right=st.value),
                                             lineno=st.lineno)
                     out.append(("augassign-expanded", fname, st.lineno, b7))
+        # B25 a diagnostic line at the top of the function: logging.debug("...")  (the module gets `import logging`)
+        def b25(fn=fn, tree=tree):
+            k = 1 if fn.body and isinstance(fn.body[0], ast.Expr) and isinstance(fn.body[0].value, ast.Constant) \
+                and isinstance(fn.body[0].value.value, str) else 0
+            call = ast.Expr(value=ast.Call(func=ast.Attribute(value=ast.Name(id="logging", ctx=ast.Load()), attr="debug", ctx=ast.Load()),
+                                           args=[ast.Constant(value="in %s" % fn.name)], keywords=[]))
+            fn.body.insert(k, call)
+            if not any(isinstance(st, ast.Import) and any(al.name == "logging" for al in st.names) for st in tree.body):
+                pos = 1 if tree.body and isinstance(tree.body[0], ast.Expr) else 0
+                while pos < len(tree.body) and isinstance(tree.body[pos], ast.ImportFrom) and tree.body[pos].module == "__future__":
+                    pos += 1
+                tree.body.insert(pos, ast.Import(names=[ast.alias(name="logging", asname=None)]))
+        if not any(isinstance(n, ast.Name) and n.id == "logging" for n in ast.walk(fn)):
+            out.append(("log-call", fname, fn.lineno, b25))
         # B24 annotate the plain parameters and the result of the function
         if fn.args.args and not any(a.annotation for a in fn.args.args) and fn.returns is None:
             def b24(fn=fn):
